@@ -43,9 +43,16 @@ def ov_apply(kind):
     return f
 
 
+def ov_index(kind, ty):
+    def f(c):
+        c.st.notes.append(('index', kind, bool(getattr(wal_mutex(c.st), 'held', []))))
+        return c.st.fresh(ty, c.st.fresh_name('idx' + kind))
+    return f
+
+
 ex.extra_models.update({'SlabRouter::classify_key': ov_classify, 'SlabRouter::put': ov_apply('put'), 'SlabRouter::delete': ov_apply('delete'),
-                        'EntityIndex::get_or_create': lambda c: c.st.fresh('EntityId', c.st.fresh_name('eid')),
-                        'EntityIndex::get': lambda c: c.st.fresh('std::option::Option<EntityId>', c.st.fresh_name('idxget')),
+                        'EntityIndex::get_or_create': ov_index('get_or_create', 'EntityId'),
+                        'EntityIndex::get': ov_index('get', 'std::option::Option<EntityId>'),
                         '<TensorData as Clone>::clone': lambda c: c.args[0].load(c.st)})
 
 
@@ -57,6 +64,8 @@ def cfg_for(st):
 
 
 scl = WalScenario(ck, ex, 'TensorWal::open', 'TensorWal::append', 'TensorWal::replay', 'WalEntry', open_args=lambda st: [cfg_for(st)])
+ck.declare('D3_log_content_decided_under_the_log_lock', 'same',
+           'every entity-index lookup that decides which records a durable write logs (EntityIndex::get / get_or_create) happens while the log lock is held: what is logged describes the state the write is applied to')
 ck.declare('D1_apply_under_the_log_lock', 'put_durable / delete_durable on every key class',
            'a durable key: the slab is touched exactly once, after the record is in the log, and while the log lock of that append is still held; cache keys are applied without logging')
 logged = 0
@@ -92,6 +101,9 @@ for op in ('put_durable', 'delete_durable'):
             logged += 1
         ck.require(ex, 'D1_apply_under_the_log_lock', r.pc, z3.Not(is_cache), z3.BoolVal(bool(held and flen > 0)), wit, lambda m, w: 'apply-outside-log-lock')
         ck.require(ex, 'D1_apply_under_the_log_lock', r.pc, is_cache, z3.BoolVal(flen == 0), wit, lambda m, w: 'cache-key-logged')
+        idx = [x for x in r.st.notes if x[0] == 'index']
+        ck.require(ex, 'D3_log_content_decided_under_the_log_lock', r.pc, z3.Not(is_cache), z3.BoolVal(all(x[2] for x in idx)),
+                   lambda m, op=op: {'router_op': op, 'key_class': 'Embedding', 'window': 'before_lock'}, lambda m, w: 'index-read-outside-log-lock')
 if logged == 0:
     ck.inconclusive.append('vacuous: no path logged a durable write')
 
@@ -147,7 +159,11 @@ if cps == 0:
 
 for v in ck.violations:
     w = v['witness']
-    rep = Replay.call({'op': 'checkpoint_race', 'records': w.get('records', 1)} if w['router_op'] == 'checkpoint' else {'op': 'durable_order', 'router_op': w['router_op'], 'key_class': w['key_class']})
+    if w.get('window') == 'before_lock':
+        # the other thread creates the embedding key just before this write takes the log lock
+        rep = Replay.call({'op': 'durable_order', 'router_op': w['router_op'], 'key_class': 'Embedding', 'window': 'before_lock', 'embedding': True, 'fresh_key': True})
+    else:
+        rep = Replay.call({'op': 'checkpoint_race', 'records': w.get('records', 1)} if w['router_op'] == 'checkpoint' else {'op': 'durable_order', 'router_op': w['router_op'], 'key_class': w['key_class']})
     v['native'] = rep
     v['replayed'] = rep.get('violates')
 ck.functions += ['SlabRouter::put_durable', 'SlabRouter::delete_durable', 'TensorWal::append']
